@@ -128,11 +128,17 @@ func (s *quicServer) run() error {
 func (s *quicServer) handleConn(c quic.Connection) error {
 	localAddr := netAddr2NetipAddr(c.LocalAddr())
 	remoteAddr := netAddr2NetipAddr(c.RemoteAddr())
+	var inflight atomic.Int32 // streams being handled
 	for {
 		streamAcceptCtx, cancelAccept := context.WithTimeout(context.Background(), s.idleTimeout)
 		stream, err := c.AcceptStream(streamAcceptCtx)
+		timedOut := streamAcceptCtx.Err() != nil
 		cancelAccept()
 		if err != nil {
+			if timedOut && inflight.Load() > 0 && c.Context().Err() == nil {
+				// Not idle: queries are still in flight on this connection.
+				continue
+			}
 			return err
 		}
 
@@ -147,10 +153,12 @@ func (s *quicServer) handleConn(c quic.Connection) error {
 
 		// Handle stream.
 		// For doq, one stream, one query.
+		inflight.Add(1)
 		go func() {
 			defer func() {
 				stream.Close()
 				stream.CancelRead(0) // TODO: Needs a proper error code.
+				inflight.Add(-1)
 			}()
 			s.handleStream(stream, c, remoteAddr, localAddr)
 		}()
